@@ -1,6 +1,22 @@
 // C20 harness: drives the real failsafe.StateChangeWatcher with a deterministic
-// clock and a scripted predicate; observables = the instant of every observation
-// and the ordered (reaction, instant) list.
+// virtual clock (vclock.go) and a scripted predicate; observables = the instant
+// of every answer of the predicate and the ordered (reaction, instant) list.
+//
+// Suites
+//
+//	watcher, watcher_rnd  the bare watcher (failsafe.NewStateChangeWatcher), exhaustive
+//	                      small scripts / random long ones
+//	hang                  the bare watcher with a predicate that hangs for long virtual
+//	                      durations (seconds to an hour) at scripted checks
+//	failsafe              the watcher built by the REAL constructor
+//	                      NewDiagnosisFailsafeStateChangeWatcher with the real reactions
+//	                      on a real TxnPoliciesAccessor (failsafe.go); reactions are
+//	                      made to fail at scripted checks
+//
+// Nothing is assumed about the implementation's threading: the predicate and the
+// reactions may be called from any goroutine, checks may overlap, the loop may
+// wait on timers of its own.  What the harness cannot drive to the end of the
+// script is recorded (Case.Stall) and reported, the harness itself goes on.
 package main
 
 import (
@@ -15,60 +31,39 @@ import (
 	c "verifharness/common"
 )
 
-// fakeClock: a deterministic clock.Clock.  Blocking waits return exactly when they
-// are due (a non-positive wait returns at once, as time.Sleep / time.After do);
-// extra time passes only where the script says so:
-//
-//	Pre   before the reading at the top of the loop (recognised as the first clock
-//	      call ever, or a Since() that directly follows a Now(): the loop ends with
-//	      lastRunAt = Now() and starts with Since(lastRunAt))
-//	Delay inside the predicate
-//	Post  inside the callback (a reaction that takes time, e.g. a policy reload)
-type fakeClock struct {
-	now     time.Time
-	calls   int
-	lastNow bool // the previous clock call was Now()
-	pre     func() time.Duration
-}
-
-func (f *fakeClock) tick(isNow bool) { f.calls++; f.lastNow = isNow }
-func (f *fakeClock) Now() time.Time  { f.tick(true); return f.now }
-func (f *fakeClock) Sleep(d time.Duration) {
-	f.tick(false)
-	if d > 0 {
-		f.now = f.now.Add(d)
-	}
-}
-func (f *fakeClock) After(d time.Duration) <-chan time.Time {
-	f.tick(false)
-	if d > 0 {
-		f.now = f.now.Add(d)
-	}
-	ch := make(chan time.Time, 1)
-	ch <- f.now
-	return ch
-}
-func (f *fakeClock) Since(t time.Time) time.Duration {
-	if f.calls == 0 || f.lastNow {
-		f.now = f.now.Add(f.pre())
-	}
-	f.tick(false)
-	return f.now.Sub(t)
-}
-func (f *fakeClock) Until(t time.Time) time.Duration { f.tick(false); return t.Sub(f.now) }
-
 type Step struct {
 	Obs   bool  `json:"obs"`
 	Pre   int64 `json:"pre_ns"`   // scheduling slack before the top-of-loop reading
-	Delay int64 `json:"delay_ns"` // time spent inside the predicate
+	Delay int64 `json:"delay_ns"` // virtual time the predicate takes to answer (a hang = a long one)
 	Post  int64 `json:"post_ns"`  // time spent inside the callback (0 when none was called)
+	// suite failsafe: what goes wrong when a reaction is invoked at this check
+	// (0 nothing, 1 the persisted policies file is corrupt, 2 HAProxy refuses); 0 when none was invoked
+	Fault int `json:"fault,omitempty"`
 }
+
+// Rx: a reaction as INVOKED (whether or not it succeeds)
 type Rx struct {
 	Kind     bool  `json:"healthy"`
 	At       int64 `json:"at_ns"`
-	AfterObs int   `json:"after_observation"` // index of the observation it followed
+	AfterObs int   `json:"after_observation"` // index of the latest check started before it
+	Answered int   `json:"answers_before"`    // number of answers the predicate had given before it
+	// suite failsafe: did it take effect, and which policies are in force after it
+	Effect   bool `json:"took_effect,omitempty"`
+	DiagFree bool `json:"diagnosis_free_in_force_after,omitempty"`
+	seq      int
 }
+
+// Ans: an answer of the predicate (a REAL observation of the state)
+type Ans struct {
+	Call  int   `json:"check"`
+	Obs   bool  `json:"obs"`
+	At    int64 `json:"at_ns"`
+	Stale bool  `json:"stale,omitempty"` // the implementation had not waited for it (see pred)
+	seq   int
+}
+
 type Case struct {
+	Kind     string  `json:"kind,omitempty"` // "" = bare watcher, "failsafe" = real constructor + real reactions
 	N        int     `json:"consecutive_n"`
 	P        int64   `json:"stable_ns"`
 	I        int64   `json:"interval_ns"`
@@ -76,70 +71,157 @@ type Case struct {
 	T0       int64   `json:"t0_ns"`
 	Script   []Step  `json:"script"`
 	ObsAt    []int64 `json:"observed_at_ns"`
+	Answers  []Ans   `json:"answers"`
 	Observed []Rx    `json:"reactions"`
+	Stall    string  `json:"stall,omitempty"` // why the run could not be driven to the end of the script
+}
+
+// runner: one execution of a case
+type runner struct {
+	k        *Case
+	clk      *vclock
+	i        int // checks started so far
+	finished bool
+	called   []bool
+	// the real reaction behind a callback (suite failsafe), run between the
+	// recording of the invocation and the callback slack
+	invoke func(kind bool, fault int, real func()) (effect, diagFree bool)
+}
+
+func (r *runner) pred() bool {
+	cl := r.clk
+	cl.lockLive()
+	j := r.i
+	if j >= len(r.k.Script) { // the check after the last scripted one ends the case
+		r.finished = true
+		cl.mu.Unlock()
+		runtime.Goexit()
+	}
+	r.i++
+	s := r.k.Script[j]
+	served := cl.fired
+	cl.mu.Unlock()
+	cl.block(time.Duration(s.Delay), kAnswer)
+	cl.lockLive()
+	cl.seq++
+	// stale: the implementation did not wait for this answer — it started a later check, or it
+	// was handed another wait (a time-out, say) while this check was pending
+	own := 0
+	if s.Delay > 0 {
+		own = 1
+	}
+	stale := r.i > j+1 || cl.fired-served > own
+	r.k.Answers = append(r.k.Answers, Ans{Call: j, Obs: s.Obs, At: cl.now.UnixNano(), Stale: stale, seq: cl.seq})
+	cl.mu.Unlock()
+	return s.Obs
+}
+
+func (r *runner) react(kind bool, real func()) {
+	cl := r.clk
+	cl.lockLive()
+	cl.seq++
+	step := r.i - 1
+	idx := len(r.k.Observed)
+	r.k.Observed = append(r.k.Observed, Rx{Kind: kind, At: cl.now.UnixNano(), AfterObs: step,
+		Answered: len(r.k.Answers), seq: cl.seq})
+	var post int64
+	fault := 0
+	if step >= 0 && step < len(r.k.Script) {
+		r.called[step] = true
+		post = r.k.Script[step].Post
+		fault = r.k.Script[step].Fault
+	}
+	cl.mu.Unlock()
+	if r.invoke != nil {
+		eff, df := r.invoke(kind, fault, real)
+		cl.lockLive()
+		r.k.Observed[idx].Effect, r.k.Observed[idx].DiagFree = eff, df
+		cl.mu.Unlock()
+	}
+	cl.block(time.Duration(post), kTimer)
 }
 
 func exec(k *Case) {
-	clk := &fakeClock{now: time.Unix(0, k.T0)}
-	done := make(chan struct{})
-	i := 0
-	k.Observed = nil
-	k.ObsAt = nil
+	k.Observed, k.ObsAt, k.Answers, k.Stall = nil, nil, nil, ""
+	clk := newVClock(k.T0)
+	r := &runner{k: k, clk: clk, called: make([]bool, len(k.Script))}
 	clk.pre = func() time.Duration {
-		if i < len(k.Script) {
-			return time.Duration(k.Script[i].Pre)
+		if r.i < len(k.Script) {
+			return time.Duration(k.Script[r.i].Pre)
 		}
 		return 0
 	}
-	called := make([]bool, len(k.Script))
-	react := func(kind bool) {
-		k.Observed = append(k.Observed, Rx{kind, clk.now.UnixNano(), i - 1})
-		if i >= 1 && i <= len(k.Script) {
-			called[i-1] = true
-			clk.now = clk.now.Add(time.Duration(k.Script[i-1].Post))
-		}
+	var w *failsafe.StateChangeWatcher
+	if k.Kind == "failsafe" {
+		w = buildFailsafe(r)
+	} else {
+		w = failsafe.NewStateChangeWatcher("verif", failsafe.Config{
+			ObtainPredicate:     r.pred,
+			OnChangeToTrue:      func() { r.react(true, nil) },
+			OnChangeToFalse:     func() { r.react(false, nil) },
+			MinTimeBetweenCalls: time.Duration(k.I),
+			ConsecutiveN:        k.N,
+			MinStablePeriod:     time.Duration(k.P),
+			CooldownPeriod:      time.Duration(k.C),
+		}, clk, zerolog.Nop())
 	}
-	cfg := failsafe.Config{
-		ObtainPredicate: func() bool {
-			if i >= len(k.Script) {
-				close(done)
-				runtime.Goexit()
-			}
-			s := k.Script[i]
-			i++
-			clk.now = clk.now.Add(time.Duration(s.Delay))
-			k.ObsAt = append(k.ObsAt, clk.now.UnixNano())
-			return s.Obs
-		},
-		OnChangeToTrue:      func() { react(true) },
-		OnChangeToFalse:     func() { react(false) },
-		MinTimeBetweenCalls: time.Duration(k.I),
-		ConsecutiveN:        k.N,
-		MinStablePeriod:     time.Duration(k.P),
-		CooldownPeriod:      time.Duration(k.C),
-	}
-	w := failsafe.NewStateChangeWatcher("verif", cfg, clk, zerolog.Nop())
 	w.RunInBackground()
-	<-done
-	// the callback slack was consumed only where a callback ran
+	k.Stall = clk.drive(func() bool {
+		clk.mu.Lock()
+		defer clk.mu.Unlock()
+		return r.finished
+	}, 16*(len(k.Script)+2))
+	clk.kill()
+	clk.mu.Lock()
+	defer clk.mu.Unlock()
+	for _, a := range k.Answers {
+		k.ObsAt = append(k.ObsAt, a.At)
+	}
+	// the callback slack / the fault were consumed only where a callback ran
 	for j := range k.Script {
-		if !called[j] {
+		if !r.called[j] {
 			k.Script[j].Post = 0
+			k.Script[j].Fault = 0
 		}
 	}
+}
+
+func coqItem(s Step) string {
+	return "It " + c.B(s.Obs) + " " + c.Z(s.Pre) + " " + c.Z(s.Delay) + " " + c.Z(s.Post)
 }
 
 func coq(k *Case) string {
-	return "(Case " + c.Z(int64(k.N)) + " " + c.Z(k.P) + " " + c.Z(k.I) + " " + c.Z(k.C) + " " + c.Z(k.T0) + " " +
-		c.MapList(k.Script, func(s Step) string {
-			return "It " + c.B(s.Obs) + " " + c.Z(s.Pre) + " " + c.Z(s.Delay) + " " + c.Z(s.Post)
-		}) + " " +
-		c.MapList(k.ObsAt, func(t int64) string { return c.Z(t - k.T0) }) + " " + // offsets from t0
+	head := c.Z(int64(k.N)) + " " + c.Z(k.P) + " " + c.Z(k.I) + " " + c.Z(k.C) + " " + c.Z(k.T0) + " "
+	obsAt := c.MapList(k.ObsAt, func(t int64) string { return c.Z(t - k.T0) }) // offsets from t0
+	if k.Kind == "failsafe" {
+		return "(FCase " + head +
+			c.MapList(k.Script, func(s Step) string { return "(FIt (" + coqItem(s) + ") " + faultCoq[s.Fault] + ")" }) + " " +
+			obsAt + " " +
+			c.MapList(k.Observed, func(r Rx) string {
+				return "(FRx " + c.B(r.Kind) + " " + c.Z(r.At-k.T0) + " " + c.B(r.Effect) + " " + c.B(r.DiagFree) + ")"
+			}) + ")"
+	}
+	return "(Case " + head +
+		c.MapList(k.Script, coqItem) + " " + obsAt + " " +
 		c.MapList(k.Observed, func(r Rx) string { return c.Tuple(c.B(r.Kind), c.Z(r.At-k.T0)) }) + ")"
 }
 
-// monitor restates the property over what the implementation did
-// (observations with their instants, reactions with theirs).
+// monitor restates the property over what the implementation did: the answers
+// the predicate really gave (with their instants) and the reactions as invoked
+// (with theirs), both in the order in which they happened.
+//
+//	alternation       reactions alternate, the first is 'unhealthy'
+//	stability-count   the answers given before a reaction end with >= max(N,1)
+//	                  consecutive answers of the new state
+//	stability-period  the first answer of that stretch is >= the stable period old
+//	cooldown          no reaction within the cool-down after an 'unhealthy' reaction
+//	reaction-kind     (suite failsafe) a reaction that took effect left the policies of its
+//	                  kind in force: diagnosis-free after 'unhealthy', with diagnosis after 'healthy again'
+//
+// An answer the implementation did not wait for (stale: a later check had been
+// started, or another wait had been served to the implementation, while the check
+// was pending) never breaks a stretch; it counts for the stretch when it agrees.  Loop iterations, time-outs or carried-over
+// readings of the implementation are not observations: only answers count.
 func monitor(k *Case) []c.Hit {
 	var hits []c.Hit
 	add := func(sig, dem, obs string) {
@@ -153,33 +235,37 @@ func monitor(k *Case) []c.Hit {
 	for ri, r := range k.Observed {
 		if r.Kind == prev {
 			add("alternation", "reactions alternate, first is unhealthy",
-				fmt.Sprintf("reaction #%d is healthy=%v again", ri, r.Kind))
+				fmt.Sprintf("reaction #%d at %d ns is healthy=%v again", ri, r.At-k.T0, r.Kind))
 		}
 		prev = r.Kind
-		// the reaction follows the last observation made at or before r.At
-		last := r.AfterObs
-		if last < 0 || last >= len(k.ObsAt) {
-			add("stability", "a reaction follows an observation", "reaction before any observation")
-			continue
+		runLen, firstAt := 0, int64(0)
+		for j := r.Answered - 1; j >= 0 && j < len(k.Answers); j-- {
+			a := k.Answers[j]
+			if a.Obs != r.Kind {
+				if a.Stale {
+					continue
+				}
+				break
+			}
+			runLen++
+			firstAt = a.At
 		}
-		first := last
-		for first >= 0 && k.Script[first].Obs == r.Kind {
-			first--
-		}
-		first++
-		runLen := last - first + 1
 		if runLen < need {
-			add("stability-count", fmt.Sprintf(">= %d consecutive observations of %v", need, r.Kind),
-				fmt.Sprintf("only %d before the reaction at %d", runLen, r.At))
-		} else if r.At-k.ObsAt[first] < k.P {
+			add("stability-count", fmt.Sprintf(">= %d consecutive answers of the predicate saying healthy=%v before the reaction", need, r.Kind),
+				fmt.Sprintf("only %d before the reaction at %d ns", runLen, r.At-k.T0))
+		} else if r.At-firstAt < k.P {
 			add("stability-period", fmt.Sprintf("state observed for >= %d ns", k.P),
-				fmt.Sprintf("only %d ns", r.At-k.ObsAt[first]))
+				fmt.Sprintf("only %d ns", r.At-firstAt))
+		}
+		if k.Kind == "failsafe" && r.Effect && r.DiagFree == r.Kind {
+			add("reaction-kind", "the 'unhealthy' reaction drops the diagnosis plugins, the 'healthy again' reaction brings the loaded policies back",
+				fmt.Sprintf("after the reaction healthy=%v at %d ns took effect: diagnosis-free policies in force = %v", r.Kind, r.At-k.T0, r.DiagFree))
 		}
 		if !r.Kind {
-			for _, t := range k.ObsAt {
-				if t > r.At && t < r.At+k.C {
-					add("cooldown", fmt.Sprintf("no check within %d ns after the unhealthy reaction at %d", k.C, r.At),
-						fmt.Sprintf("check at %d", t))
+			for _, r2 := range k.Observed[ri+1:] {
+				if r2.At < r.At+k.C {
+					add("cooldown", fmt.Sprintf("no reaction within %d ns after the unhealthy reaction at %d ns", k.C, r.At-k.T0),
+						fmt.Sprintf("reaction healthy=%v at %d ns", r2.Kind, r2.At-k.T0))
 					break
 				}
 			}
@@ -188,31 +274,55 @@ func monitor(k *Case) []c.Hit {
 	return hits
 }
 
+const sec = int64(time.Second)
+
 func main() {
+	zerolog.SetGlobalLevel(zerolog.Disabled)
 	o := c.NewOut("C20")
-	// two suites over the same case type and run function: the exhaustive small-scope scripts and
-	// the random long ones (separate so that each gets its own <= 32 coqc shards: a shard of 4 000
-	// long random cases needs ~2 GB)
+	// watcher / watcher_rnd / hang share the case type and the run function: the exhaustive
+	// small-scope scripts, the random long ones (separate so that each gets its own <= 32 coqc
+	// shards: a shard of 4 000 long random cases needs ~2 GB) and the hanging predicate
 	o.DeclareSuite("watcher", "From Verif Require Import C20.Model.", "case", "run_case")
 	o.DeclareSuite("watcher_rnd", "From Verif Require Import C20.Model.", "case", "run_case")
+	o.DeclareSuite("hang", "From Verif Require Import C20.Model.", "case", "run_case")
+	o.DeclareSuite("failsafe", "From Verif Require Import C20.Model C20.Outcome.", "fcase", "run_fcase")
 	o.Rule("exhaustive boolean observation scripts up to a length bound x a grid of settings " +
 		"(N, stable period, interval, cool-down, fixed per-check delay), then random scripts with " +
 		"random settings (negative stable period / cool-down, interval -1 ns included) and random " +
 		"per-check slacks of the clock (before the top-of-loop reading, inside the predicate, inside " +
-		"the callback); compared: the instant of every observation and the (reaction, instant) list; " +
+		"the callback); suite hang: random scripts in which the predicate hangs for 5 s .. 1 h of virtual " +
+		"time at a third of the checks (blip followed by hangs included); suite failsafe: the watcher built by the " +
+		"real constructor with the real reactions on a real policies accessor over files, whole-second settings, " +
+		"a fault (corrupt persisted file / HAProxy refusing) at a third of the checks; compared: the instant of every " +
+		"answer of the predicate and the (reaction, instant) list, for failsafe also whether each reaction took effect " +
+		"and which policies are in force after it; " +
 		"distinct = distinct (settings, script, observation instants, observed reactions); " +
-		"non-trivial = at least one reaction fired")
+		"non-trivial = at least one reaction fired (hang: and a check hung >= 5 s; failsafe: and a reaction failed)")
 	var k Case
 	if suite, ok := o.ReplayCase(&k); ok {
-		if suite != "watcher_rnd" {
+		switch {
+		case k.Kind == "failsafe":
+			suite = "failsafe"
+		case suite != "watcher_rnd" && suite != "hang":
 			suite = "watcher"
 		}
 		run(o, suite, k)
 		o.Finish()
 		return
 	}
-	const sec = int64(time.Second)
 	t0 := int64(1_700_000_000) * sec
+	r := o.Rng
+	rFail, rHang := r.Fork(7), r.Fork(8)
+	// the two new suites first: on a tree whose watcher misbehaves they are the ones that
+	// produce the failing input, and they are cheap
+	genFailsafe(o, rFail, t0)
+	if stopped {
+		return
+	}
+	genHang(o, rHang, t0)
+	if stopped {
+		return
+	}
 	// thorough: every length up to 9 (98 112 cases) + 30 000 random ones = ~128 000 cases
 	// (lengths up to 11 were 393 000 cases: 25 min and > 1.5 GB per coqc shard)
 	maxLen := o.Scale(7, 9, 9)
@@ -233,7 +343,9 @@ func main() {
 								for j := 0; j < l; j++ {
 									k.Script = append(k.Script, Step{Obs: bits>>j&1 == 1, Delay: d})
 								}
-								run(o, "watcher", k)
+								if !run(o, "watcher", k) {
+									return
+								}
 							}
 						}
 					}
@@ -241,7 +353,6 @@ func main() {
 			}
 		}
 	}
-	r := o.Rng
 	delays := []int64{0, 1, sec / 2, sec - 1, sec, sec + 1, 3 * sec}
 	slack := []int64{0, 0, 0, 1, sec / 2, sec - 1, sec, sec + 1, 2 * sec}
 	for i := 0; i < o.Scale(3000, 30000, 20000); i++ {
@@ -264,19 +375,111 @@ func main() {
 			}
 			k.Script = append(k.Script, s)
 		}
-		run(o, "watcher_rnd", k)
+		if !run(o, "watcher_rnd", k) {
+			return
+		}
+	}
+	finish(o)
+}
+
+// genHang: the bare watcher with a health source that stops answering: at a
+// third of the checks the predicate hangs for 5 s .. 1 h of virtual time (then
+// answers).  Half of the scripts are "a reading that differs from the stable
+// state, then hangs" (what an implementation that bounds the evaluation and
+// falls back on some reading would turn into a confirmation).
+func genHang(o *c.Out, r *c.Rng, t0 int64) {
+	hangs := []int64{5 * sec, 5*sec + 1, 6 * sec, 11 * sec, 31 * sec, 61 * sec, 10 * 60 * sec, 3600 * sec}
+	quickAns := []int64{0, 1, sec / 2, sec}
+	for i := 0; i < o.Scale(600, 4000, 3000); i++ {
+		k := Case{N: r.Range(1, 4), T0: t0 + int64(r.Intn(1000))}
+		k.P = c.Pick(r, []int64{0, sec, 2 * sec, 5 * sec})
+		k.I = c.Pick(r, []int64{0, sec, sec, 2 * sec})
+		k.C = c.Pick(r, []int64{0, sec, 10 * sec, 60 * sec})
+		l := r.Range(2, 16)
+		blip := r.Chance(1, 2)
+		blipAt := r.Intn(3)
+		cur := true
+		for j := 0; j < l; j++ {
+			s := Step{Delay: c.Pick(r, quickAns)}
+			switch {
+			case blip && j < blipAt:
+				s.Obs = true
+			case blip && j == blipAt:
+				s.Obs = false
+			case blip && j <= blipAt+4:
+				// the source hangs; when it finally answers the blip is over
+				s.Obs, s.Delay = true, c.Pick(r, hangs)
+			default:
+				if r.Chance(1, 4) {
+					cur = !cur
+				}
+				s.Obs = cur
+				if r.Chance(1, 3) {
+					s.Delay = c.Pick(r, hangs)
+				}
+			}
+			k.Script = append(k.Script, s)
+		}
+		if !run(o, "hang", k) {
+			return
+		}
+	}
+}
+
+// stalls: after a few cases that could not be driven to their end the
+// generators stop (every further case would only wait for a guard to expire)
+var (
+	stalls  int
+	stopped bool
+)
+
+func finish(o *c.Out) {
+	if stalls > 0 {
+		o.Note(fmt.Sprintf("%d case(s) could not be driven to the end of their script (see the stall hits); generation stopped after 3", stalls))
 	}
 	o.Finish()
 }
 
-func run(o *c.Out, suite string, k Case) {
+// run executes one case; false = stop generating
+func run(o *c.Out, suite string, k Case) bool {
 	exec(&k)
-	o.Count(fmt.Sprintf("len=%02d", len(k.Script)))
-	o.Count(fmt.Sprintf("reactions=%d", len(k.Observed)))
-	idx := o.Case(suite, coq(&k), k, len(k.Observed) > 0)
+	o.Count(fmt.Sprintf("%s:len=%02d", suite, len(k.Script)))
+	o.Count(fmt.Sprintf("%s:reactions=%d", suite, len(k.Observed)))
+	nontrivial := len(k.Observed) > 0
+	switch suite {
+	case "hang":
+		hung := false
+		for _, s := range k.Script {
+			hung = hung || s.Delay >= 5*sec
+		}
+		nontrivial = nontrivial && hung
+	case "failsafe":
+		failed := false
+		for _, rx := range k.Observed {
+			failed = failed || !rx.Effect
+		}
+		if failed {
+			o.Count("failsafe:has_failed_reaction")
+		}
+		nontrivial = nontrivial && failed
+	}
+	idx := o.Case(suite, coq(&k), k, nontrivial)
 	o.MonitorChecked(1)
 	for _, h := range monitor(&k) {
 		h.Suite, h.Index = suite, idx
 		o.Hit(h)
 	}
+	if k.Stall != "" {
+		// not a statement about the property: the harness could not drive this tree through
+		// the script (the model comparison of the case says what is missing)
+		o.Count(suite + ":stalled")
+		o.Note("stall in " + suite + fmt.Sprintf(" #%d: ", idx) + k.Stall)
+		stalls++
+		if stalls >= 3 && o.Replay == "" {
+			finish(o)
+			stopped = true
+			return false
+		}
+	}
+	return true
 }
